@@ -4,9 +4,10 @@
 // protogen's rule); per message the index of `mi := &file_X_msgTypes[N]` in slowProtoReflect and Reset, per file the lengths of the
 // enumTypes / msgTypes tables.
 //
-//	ENUMPROG   set file spec var info full = (enum T (consts (c NAME NUM)…) (names (n NUM NAME)…) (values (v NAME NUM)…) (methods M…))
-//	ENUMMSG    set file spec var full      = (msg VAR slow reset)
-//	ENUMTABLES set file spec               = E M
+//	@ENUMFILE  set file spec          = ok
+//	ENUMPROG   set file var info full = (enum T (consts (c NAME NUM)…) (names (n NUM NAME)…) (values (v NAME NUM)…) (methods M…))
+//	ENUMMSG    set file var full      = (msg VAR slow reset)
+//	ENUMTABLES set file               = E M
 //
 // spec is depSpec's rendering of the declaration tree (geneng.go), info = (info FULL GO (val NAME GO NUM)…).
 package main
@@ -476,7 +477,8 @@ func engineEnumProg(cfg config, o *out) {
 			}
 			spec := epSpec(fd)
 			prefix := "file_" + apGoSanitized(fd.Path())
-			arg := func(more ...string) []string { return append([]string{set, path, spec}, more...) }
+			arg := func(more ...string) []string { return append([]string{set, path}, more...) }
+			o.kase("@ENUMFILE", arg(spec), "ok")
 			dir := epDirOf(fd)
 			if dir == "" {
 				o.kase("ENUMTABLES", arg(), "untranslatable:no source directory known")
